@@ -27,5 +27,7 @@ func Register() {
 		// no -trimpath here: the package's external tests locate their testdata through runtime.Caller at init time
 		{Name: "vitess", Twin: &rig.Twin{Pkg: "libraries/doltcore/sqle/binlogreplication", Run: "^TestVerifC40$"},
 			TimeoutQuick: 40 * time.Minute, TimeoutThorough: 4 * time.Hour},
+		// second opinion on the same events with go-mysql's decoder (reads the side files of the vitess stage)
+		{Name: "gomysql", Fn: c40GoMySQL, TimeoutQuick: 10 * time.Minute, TimeoutThorough: time.Hour},
 	}})
 }
